@@ -4,6 +4,8 @@ import fcntl
 import hashlib
 import json
 import os
+import queue
+import threading
 import re
 import subprocess
 import sys
@@ -203,7 +205,10 @@ def build_rust(extra_rustflags=""):
 # ---------------------------------------------------------------------------------------------
 # running cases
 
-def _run_chunk(cmd, env, lines):
+HANG_SECONDS = int(os.environ.get("VERIF_HANG_SECONDS", "180"))   # no answer to ONE case for this long = a hang (cases take ms to a few s)
+
+
+def _run_chunk_plain(cmd, env, lines):
     if not lines:
         return []
     e = dict(os.environ)
@@ -214,12 +219,73 @@ def _run_chunk(cmd, env, lines):
     if out and out[-1] == "":
         out.pop()
     if len(out) != len(lines):
-        # the process died (abort, stack overflow, ...): find the first line without an answer
         out = out + ["crash rc=%d %s" % (p.returncode, p.stderr.strip().replace("\n", " ")[-200:])] * (len(lines) - len(out))
     return out
 
 
-def run_sharded(cmd, env, lines, shards=NPROC):
+def _run_chunk(cmd, env, lines):
+    """(implementation driver only: its stdout is line-buffered; the model runner's is not and it cannot hang - its functions are total)
+    feeds the lines to one driver process and reads one answer per line.  The process is watched: if a case gets no answer within
+    HANG_SECONDS it is killed, that case is answered `hang` (a non-terminating computation is a failure the properties speak about),
+    and a new process continues with the remaining cases; after three hangs the rest of the chunk is answered `hang-skipped`."""
+    if not lines:
+        return []
+    e = dict(os.environ)
+    e.update(env)
+    res = []
+    hangs = 0
+    rest = list(lines)
+    while rest:
+        if hangs >= 3:
+            res += ["hang-skipped"] * len(rest)
+            break
+        p = subprocess.Popen(cmd, stdin=subprocess.PIPE, stdout=subprocess.PIPE, stderr=subprocess.PIPE, text=True, env=e)
+        q = queue.Queue()
+
+        def reader(proc=p, qq=q):
+            for ln in proc.stdout:
+                qq.put(ln.rstrip("\n"))
+            qq.put(None)
+
+        def writer(proc=p, data="\n".join(rest) + "\n"):
+            try:
+                proc.stdin.write(data)
+                proc.stdin.close()
+            except (BrokenPipeError, OSError):
+                pass
+        err = []
+        threading.Thread(target=reader, daemon=True).start()
+        threading.Thread(target=writer, daemon=True).start()
+        threading.Thread(target=lambda proc=p: err.append(proc.stderr.read()), daemon=True).start()
+        got = []
+        hung = False
+        while len(got) < len(rest):
+            try:
+                item = q.get(timeout=HANG_SECONDS)
+            except queue.Empty:
+                hung = True
+                break
+            if item is None:
+                break
+            got.append(item)
+        if hung:
+            p.kill()
+            p.wait()
+            hangs += 1
+            res += got + ["hang"]
+            rest = rest[len(got) + 1:]
+            continue
+        p.wait()
+        if len(got) != len(rest):
+            # the process died (abort, stack overflow, ...): every case without an answer is marked
+            msg = ("".join(err) if err else "").strip().replace("\n", " ")[-200:]
+            got = got + ["crash rc=%s %s" % (p.returncode, msg)] * (len(rest) - len(got))
+        res += got
+        rest = []
+    return res
+
+
+def run_sharded(cmd, env, lines, shards=NPROC, watch=False):
     """round-robin distribution over `shards` processes (balances slow cases), results in input order"""
     n = len(lines)
     if n == 0:
@@ -227,7 +293,7 @@ def run_sharded(cmd, env, lines, shards=NPROC):
     shards = max(1, min(shards, (n + 49) // 50))
     chunks = [lines[i::shards] for i in range(shards)]
     with ThreadPoolExecutor(max_workers=len(chunks)) as ex:
-        outs = list(ex.map(lambda c: _run_chunk(cmd, env, c), chunks))
+        outs = list(ex.map(lambda c: (_run_chunk if watch else _run_chunk_plain)(cmd, env, c), chunks))
     res = [None] * n
     for i, o in enumerate(outs):
         res[i::shards] = o
@@ -235,7 +301,7 @@ def run_sharded(cmd, env, lines, shards=NPROC):
 
 
 def run_impl(lines, driver=None):
-    return run_sharded([driver or DRIVER], {"VPNCLOUD_VERIF_DRIVER": "1", "RUST_BACKTRACE": "0"}, lines)
+    return run_sharded([driver or DRIVER], {"VPNCLOUD_VERIF_DRIVER": "1", "RUST_BACKTRACE": "0"}, lines, watch=True)
 
 
 def run_model(lines):
